@@ -260,8 +260,19 @@ Proof. intros H; destruct H; reflexivity. Qed.
 Lemma can_strip n e : can n e -> strip e = e.
 Proof.
   intros C. induction C as [n m e H IH L | e A | e H IH | c base v C U | c v C U | op e O H IH F | e H IH | op n l r OL R Hl IHl Hr IHr | op l r OL Hl IHl Hr IHr
-                 | neg l Hl IHl | neg l v Hl IHl | neg l s x Hl IHl Hs IHs Hx IHx | neg l x Hl IHl Hx IHx | neg l e1 es Hl IHl H1 IH1 Hes IHes] using can_ind';
+                 | neg l Hl IHl | neg l v Hl IHl | neg l s x Hl IHl Hs IHs Hx IHx | neg l x Hl IHl Hx IHx | neg l e1 es Hl IHl H1 IH1 Hes IHes
+                 | n1 n2 ns Hp | x n Hx IHx Hpl | x ix Hx IHx Hi IHi Hf | x kw ix Hx IHx Hi IHi Hk | e1 e2 es H1 IH1 H2 IH2 Hes IHes] using can_ind';
     unfold strip in *.
+  19: { change (erase (fun b => b) (ETuple 0 0 (e1 :: e2 :: es)))
+          with (ETuple 0 0 (erase (fun b => b) e1 :: erase (fun b => b) e2 :: (fix go (l : list expr) := match l with [] => [] | x :: r => erase (fun b => b) x :: go r end) es)).
+        rewrite IH1, IH2, erase_go. f_equal. f_equal. f_equal. unfold erase_l.
+        clear -IHes. induction es as [|x r IHr]; [reflexivity|]. inversion IHes; subst. cbn [map]. f_equal; auto. }
+  18: { change (erase (fun b => b) (EIndex 0 x (SKeyword 0 0 kw ix))) with (EIndex 0 (erase (fun b => b) x) (SKeyword 0 0 kw (erase (fun b => b) ix))).
+        rewrite IHx, IHi. reflexivity. }
+  17: { change (erase (fun b => b) (EIndex 0 x (SExprArg ix))) with (EIndex 0 (erase (fun b => b) x) (SExprArg (erase (fun b => b) ix))).
+        rewrite IHx, IHi. reflexivity. }
+  16: { cbn [erase]. rewrite IHx. reflexivity. }
+  15: { cbn [erase map]. f_equal. f_equal. f_equal. rewrite map_map. apply map_ext. reflexivity. }
   14: { change (erase (fun b => b) (EIn neg l (CValues 0 0 (e1 :: es))))
           with (EIn neg (erase (fun b => b) l) (CValues 0 0 (erase (fun b => b) e1 :: (fix go (l : list expr) := match l with [] => [] | x :: r => erase (fun b => b) x :: go r end) es))).
         rewrite IHl, IH1, erase_go. f_equal. f_equal. f_equal. unfold erase_l.
